@@ -206,7 +206,6 @@ func (c *cache) flushSingle(addr oid.Address, ignoreErrors bool) error {
 	verifhook.Point("wc.flush.afterMainPut")
 
 	err = c.delete(addr)
-	verifhook.Point("wc.flush.afterCacheDelete")
 	if err != nil && !errors.As(err, new(apistatus.ObjectNotFound)) {
 		c.log.Error("can't remove object from write-cache", zap.Error(err))
 	}
